@@ -10,7 +10,7 @@ use crate::obs;
 use crate::refs::qpack::Field;
 use h3::ext::Protocol;
 use std::cell::RefCell;
-use std::future::{poll_fn, Future};
+use std::future::poll_fn;
 use std::rc::Rc;
 
 #[derive(Clone, Debug, Default)]
@@ -359,31 +359,11 @@ pub fn spawn_server(ex: &mut Exec, net: &Shared, rec: &Rc<RefCell<Rec>>, setup: 
         let mut c = tryrec!(rec, "server.build", b.build::<_, SimBuf>(conn).await);
         let mut shutdowns: Vec<(Rc<Gate>, usize)> = setup.chaos.srv_shutdown.iter().map(|(k, n)| (timer(*k), *n)).collect();
         loop {
-            // accept, cancellable by the next scheduled shutdown(n) call
-            enum Sel<T> {
-                Acc(T),
-                Shut(usize),
-            }
-            let sel = {
-                let gate = shutdowns.first().cloned();
-                let mut acc = Box::pin(c.accept());
-                poll_fn(|cx| {
-                    if let std::task::Poll::Ready(r) = acc.as_mut().poll(cx) {
-                        return std::task::Poll::Ready(Sel::Acc(r));
-                    }
-                    if let Some((g, n)) = &gate {
-                        if g.is_open() {
-                            return std::task::Poll::Ready(Sel::Shut(*n));
-                        }
-                        g.register(cx);
-                    }
-                    std::task::Poll::Pending
-                })
-                .await
-            };
-            let acc = match sel {
-                Sel::Shut(n) => {
-                    shutdowns.remove(0);
+            // accept, interleaved with the next scheduled shutdown(n) call
+            let gate = shutdowns.first().cloned();
+            let acc = match accept_or_gate(&mut c, gate.as_ref().map(|(g, _)| g.as_ref())).await {
+                Accepted::Gate => {
+                    let n = shutdowns.remove(0).1;
                     obs::count("probe.server_shutdown_called");
                     if let Err(e) = c.shutdown(n).await {
                         rec.borrow_mut().server_driver = Some(Err(cout(&e)));
@@ -391,7 +371,9 @@ pub fn spawn_server(ex: &mut Exec, net: &Shared, rec: &Rc<RefCell<Rec>>, setup: 
                     }
                     continue;
                 }
-                Sel::Acc(r) => r,
+                Accepted::Request(r) => Ok(Some(r)),
+                Accepted::Done => Ok(None),
+                Accepted::Err(e) => Err(e),
             };
             match acc {
                 Ok(Some(resolver)) => {
@@ -607,4 +589,51 @@ pub fn run_exchanges(setup: Setup, cfg: NetCfg, scarce_credit: bool) -> Outcome 
     let steps = ex.steps;
     drop(ex);
     Outcome { net, rec, setup, stop, pending, panic, steps }
+}
+
+/// Result of `accept_or_gate`
+pub enum Accepted {
+    Request(h3::server::RequestResolver<SimConn, SimBuf>),
+    /// the connection reports that no more requests will come (accept() would return None)
+    Done,
+    Err(h3::error::ConnectionError),
+    /// the gate opened first
+    Gate,
+}
+
+/// `server::Connection::accept()` spelled out with the poll-based API it is built from, so that the
+/// application can interleave `shutdown(n)` calls "at any moment" without cancelling a future in
+/// the middle of an internal write (accept() is not documented as cancel-safe).
+pub async fn accept_or_gate(c: &mut h3::server::Connection<SimConn, SimBuf>, gate: Option<&Gate>) -> Accepted {
+    let r = poll_fn(|cx| {
+        if let std::task::Poll::Ready(r) = c.poll_accept_request_stream(cx) {
+            return std::task::Poll::Ready(Some(r));
+        }
+        if let Some(g) = gate {
+            if g.is_open() {
+                return std::task::Poll::Ready(None);
+            }
+            g.register(cx);
+        }
+        std::task::Poll::Pending
+    })
+    .await;
+    match r {
+        None => Accepted::Gate,
+        Some(Err(e)) => Accepted::Err(e),
+        Some(Ok(None)) => {
+            // as accept() does: always send a last GOAWAY
+            match c.shutdown(0).await {
+                Ok(()) => Accepted::Done,
+                Err(e) => Accepted::Err(e),
+            }
+        }
+        Some(Ok(Some(s))) => {
+            let fs = h3::frame::FrameStream::new(h3::stream::BufRecvStream::new(s));
+            let r = c.create_resolver(fs);
+            // accept() sends the grease frame only once
+            c.inner.send_grease_frame = false;
+            Accepted::Request(r)
+        }
+    }
 }
